@@ -68,6 +68,10 @@ def check_status_writer(R, tonic, rule):
         R.check(on_every_path(v, lambda x: is_call(x, name=fn_, pat=pat_)), rule, 'writer-always-encodes:%s' % kn, site(ah, ibb),
                 'value of %s passes through %s() on every path: %s' % (kn, fn_, show(v)[:140]))
     R.floor(rule, 'status header inserts in add_header', nins, 3)
+    # the user metadata is copied as a whole map (HeaderMap::extend keeps every value of a repeated name; insert keeps the last)
+    ext = ah.calls(name='extend')
+    okx = len(ext) == 1 and is_call(strip_refs(ah.origin(ext[0][1]['args'][1])), name='into_sanitized_headers') and mentions_field(ah.origin(ext[0][1]['args'][1]), 'metadata')
+    R.check(okx, rule, 'writer-extends-with-whole-metadata', site(ah, ext[0][0]) if ext else site(ah), 'header_map.extend(self.metadata.clone().into_sanitized_headers()): %r' % okx)
 
 
 def run(R):
